@@ -14,8 +14,50 @@ fn dim_str(d: geo::dimensions::Dimensions) -> &'static str {
     }
 }
 
+/// Edges that leave a common node in nearly the same direction, with coordinates so large (2^26 … 2^30) that the
+/// rounded cross product of the two directions is 0 or has the wrong sign while the exact one is ±1: the ordering
+/// of edge ends around a node, bundling and side labels must come from the exact orientation predicate.
+fn narrow_fan(rng: &mut Rng) -> (geo_types::Geometry<f64>, geo_types::Geometry<f64>) {
+    use geo_types::*;
+    let n = rng.range(1 << 26, 1 << 30);
+    // d1 x d2 = d2 x d3 = 1 (counter-clockwise fan d1, d2, d3)
+    let dirs = [(n + 1, n), (n + 2, n + 1), (n + 3, n + 2)];
+    let (sw, fx, fy) = (rng.chance(1, 2), rng.chance(1, 2), rng.chance(1, 2));
+    let (ox, oy) = if rng.chance(1, 2) { (0, 0) } else { (rng.range(-50, 50), rng.range(-50, 50)) };
+    let c = |(x, y): (i64, i64)| {
+        let (mut x, mut y) = if sw { (y, x) } else { (x, y) };
+        if fx { x = -x; }
+        if fy { y = -y; }
+        Coord { x: (x + ox) as f64, y: (y + oy) as f64 }
+    };
+    let o = c((0, 0));
+    let (d1, d2, d3) = (c(dirs[0]), c(dirs[1]), c(dirs[2]));
+    let mid = c((2 * n + 3, 2 * n + 1)); // direction d1 + d2, between d1 and d2
+    let ls = |v: Vec<Coord<f64>>| Geometry::LineString(LineString(v));
+    let sliver = Geometry::Polygon(Polygon::new(LineString(vec![o, d1, d2, o]), vec![]));
+    match rng.below(7) {
+        0 => (ls(vec![o, d1]), ls(vec![o, d2])),
+        1 => (ls(vec![d1, o, d3]), ls(vec![o, d2])),
+        2 => (ls(vec![d1, o]), Geometry::MultiLineString(MultiLineString(vec![LineString(vec![o, d2]), LineString(vec![d3, o])]))),
+        3 => (sliver, ls(vec![o, d3])),
+        4 => (sliver, ls(vec![o, mid])),
+        5 => (sliver, Geometry::Polygon(Polygon::new(LineString(vec![o, d2, d3, o]), vec![]))),
+        _ => (Geometry::Line(Line::new(o, d1)), Geometry::Line(Line::new(d2, o))),
+    }
+}
+
 pub fn gen(rng: &mut Rng, _index: u64) -> String {
     let k = *rng.pick(&[3i64, 4, 4, 6]);
+    if rng.chance(1, 14) {
+        let (a, b) = narrow_fan(rng);
+        let a2 = variant(rng, &a);
+        return if rng.chance(1, 2) {
+            format!("C01.rel {} {} {}", proto::geom(&a), proto::geom(&a2), proto::geom(&b))
+        } else {
+            let b2 = variant(rng, &b);
+            format!("C01.rel {} {} {}", proto::geom(&b), proto::geom(&b2), proto::geom(&a))
+        };
+    }
     if rng.chance(1, 10) {
         // HasDimensions (feeds the disjoint-envelope shortcut): any geometry, valid or degenerate
         let g = if rng.chance(1, 2) { gen_valid(rng, k) } else { crate::gen::gen_any_geom(rng, k, 2) };
